@@ -329,6 +329,52 @@ def run_depths(case, part):
                         call(part, ename, fn, c, "deep-content/%s/%s" % (pname, "beyond-recursion-limit" if depth >= 990 else "below-recursion-limit"))
 
 
+# ---- (iv-b) the extension_type member of every kind of extensions entry x every value ---------------------------------------------------------
+def run_extension_types(case, part):
+    import stix2
+    from stix2 import properties as P
+    env.reset()
+    snap = env.registry_snapshot()
+    try:
+        PE, TE = "extension-definition--3f7f0c5f-5d54-4292-94ea-ec1e1952c0b1", "extension-definition--3f7f0c5f-5d54-4292-94ea-ec1e1952c0b2"
+        UE = "extension-definition--3f7f0c5f-5d54-4292-94ea-ec1e1952c0b3"
+
+        @stix2.v21.CustomExtension(PE, [("rank", P.IntegerProperty())])
+        class PExt(object):
+            extension_type = "property-extension"
+
+        @stix2.v21.CustomExtension(TE, [("toprank", P.IntegerProperty())])
+        class TExt(object):
+            extension_type = "toplevel-property-extension"
+        TS = "2016-05-12T08:17:27.000Z"
+        bases = {
+            "unregistered-type": {"type": "x-unknown", "spec_version": "2.1", "id": "x-unknown--3f7f0c5f-5d54-4292-94ea-ec1e1952be10", "created": TS, "modified": TS},
+            "identity": {"type": "identity", "spec_version": "2.1", "id": "identity--3f7f0c5f-5d54-4292-94ea-ec1e1952be11", "created": TS, "modified": TS, "name": "n"},
+            "file": {"type": "file", "spec_version": "2.1", "name": "f"},
+        }
+        keys = {"unregistered-extension-definition": UE, "registered-property-extension": PE, "registered-toplevel-extension": TE, "predefined-extension": "archive-ext", "unregistered-name": "x-unreg-ext"}
+        values = [(l, v) for l, v in JUNK] + [(x, x) for x in ("property-extension", "toplevel-property-extension", "new-sdo", "new-sco", "new-sro", "bogus", "PROPERTY-EXTENSION", "toplevel-property-extension ")] + [("absent", "$absent")]
+        b = bases[case["base"]]
+        part.state(("extension-types", case["base"]), nontrivial=True)
+        for kname, k in keys.items():
+            if k == "archive-ext" and b["type"] != "file":
+                continue
+            for vl, v in values:
+                if case.get("ext_key") and (kname, vl) != (case["ext_key"], case["value"]):
+                    continue
+                body = {} if v == "$absent" else {"extension_type": copy.deepcopy(v)}
+                if k == "archive-ext":
+                    body["contains_refs"] = ["file--3f7f0c5f-5d54-4292-94ea-ec1e1952be12"]
+                for extra in ({}, {"toprank": 1}, {"zzz": {"a": 1}}):
+                    j = dict(copy.deepcopy(b), extensions={k: body}, **extra)
+                    for allow in (False, True):
+                        c = dict(case, ext_key=kname, value=vl, extra=sorted(extra), allow_custom=allow)
+                        for ename, fn in entries(j, "2.1", allow, b["type"] == "file"):
+                            call(part, ename, fn, c, "extension_type/%s/%s" % (kname, "string" if isinstance(v, str) and v != "$absent" else "absent" if v == "$absent" else kind_of(v)))
+    finally:
+        env.registry_restore(snap)
+
+
 # ---- (v) a failure must leave NOTHING behind: refused parse of a type, then its registration, then the same parse -------------------------------
 def run_fail_then_register(case, part):
     import stix2
@@ -408,6 +454,8 @@ def run_case(case, part):
         return run_depths(case, part)
     if case.get("kind") == "fail-then-register":
         return run_fail_then_register(case, part)
+    if case.get("kind") == "extension-types":
+        return run_extension_types(case, part)
     if case.get("kind") in ("values",):
         run_values(case, part)
     elif case.get("kind") in ("value", "text"):
@@ -417,7 +465,7 @@ def run_case(case, part):
 
 
 def replay(case, part):
-    c = {k: v for k, v in case.items() if k not in ("entry", "allow_custom", "stage")}
+    c = {k: v for k, v in case.items() if k not in ("entry", "allow_custom", "stage", "extra")}
     if isinstance(c.get("junk"), list):
         c = {k: v for k, v in c.items() if k not in ("slot", "junk")}
         c["pairs"] = True
@@ -442,6 +490,8 @@ def run(run):
             cases.append({"kind": "names", "version": version, "key": key, "label": "max" if th else "min"})
     for b in ("file-without-id", "file-with-id", "network-traffic-without-id", "identity", "identity-with-granular-markings", "identity-2.0-with-granular-markings"):
         cases.append({"kind": "depths", "base": b})
+    for b in ("unregistered-type", "identity", "file"):
+        cases.append({"kind": "extension-types", "base": b})
     for ver in ("2.0", "2.1"):
         for kind in ("object", "observable"):
             for first in ("all", "parse(dict)", "parse(text)", "parse(container)", "parse_observable", "MemoryStore.add"):
